@@ -87,12 +87,15 @@ type sidesInfo struct {
 	slice   map[*ssa.Function]bool
 	fns     []*ssa.Function // slice, sorted by position
 
-	sidedT map[*types.TypeName]string // field-sided struct types -> role ("state", "Diff", "DiffCursor")
+	sidedT map[*types.TypeName]string // field-sided struct types -> role ("state", "Diff", "DiffCursor", "snapshot")
 	fslot  map[*types.Var]*sdSlot
 	pslot  map[*ssa.Parameter]*sdSlot
 	slots  []*sdSlot
 	poly   map[*ssa.Function]bool
 	val    map[ssa.Value]side
+
+	// snapshot structs (sides_snapshot.go): field slot of the snapshot -> the state field it copies
+	snapOrigin map[*sdSlot]*sdSlot
 
 	entrySig, linkSig *types.Signature
 	entrySeed         map[int]side // entry callback: parameter index -> required side
@@ -129,6 +132,8 @@ func (F *Facts) Sides() *sidesInfo {
 		pslot:  map[*ssa.Parameter]*sdSlot{},
 		poly:   map[*ssa.Function]bool{},
 		val:    map[ssa.Value]side{},
+
+		snapOrigin: map[*sdSlot]*sdSlot{},
 	}
 	sidesCache[F] = S
 	S.anchors()
@@ -312,6 +317,7 @@ func (S *sidesInfo) anchors2() {
 		S.constRemove, S.constAdd = look("DiffType_Remove"), look("DiffType_Add")
 	}
 	S.resolveItem()
+	S.resolveSnapshots()
 	S.resolveKeyCell()
 }
 
@@ -525,11 +531,17 @@ func (S *sidesInfo) slotRef(v ssa.Value) *sdSlot {
 		switch x := v.(type) {
 		case *ssa.FieldAddr:
 			if s := S.sidedField(x.X.Type(), x.Field); s != nil {
+				if o := S.snapOrigin[s]; o != nil {
+					return o // a field of a snapshot of the state stands for the field it copies
+				}
 				return s
 			}
 			v = x.X
 		case *ssa.Field:
 			if s := S.sidedField(x.X.Type(), x.Field); s != nil {
+				if o := S.snapOrigin[s]; o != nil {
+					return o
+				}
 				return s
 			}
 			v = x.X
@@ -973,7 +985,11 @@ func (S *sidesInfo) scan(emitVal func(ssa.Value, side), emitVote func(sdVote)) {
 				case *ssa.TypeAssert:
 					emitVal(x, S.sideOf(x.X))
 				case *ssa.Extract:
-					emitVal(x, S.sideOf(x.Tuple))
+					if s, ok := S.extractSide(x); ok {
+						emitVal(x, s)
+					} else {
+						emitVal(x, S.sideOf(x.Tuple))
+					}
 				case *ssa.Range:
 					emitVal(x, S.sideOf(x.X))
 				case *ssa.Next:
@@ -1012,6 +1028,34 @@ func (S *sidesInfo) scan(emitVal func(ssa.Value, side), emitVote func(sdVote)) {
 			}
 		}
 	}
+}
+
+// extractSide: x is one component of the result of a monomorphic function of
+// the diff that returns several values (o, n := dc.popPair()): its side is
+// that of the component in the callee's returns, not the join of all of them.
+func (S *sidesInfo) extractSide(x *ssa.Extract) (side, bool) {
+	call, ok := x.Tuple.(*ssa.Call)
+	if !ok {
+		return sdNone, false
+	}
+	callee := ir.Callee(call.Common())
+	if callee == nil || !S.slice[callee] || S.poly[callee] {
+		return sdNone, false
+	}
+	rets := ir.Returns(callee)
+	if len(rets) == 0 {
+		return sdNone, false
+	}
+	s := sdNone
+	for _, r := range rets {
+		if x.Index >= len(r.Results) {
+			return sdNone, false
+		}
+		if op := r.Results[x.Index]; !sdSkipType(op.Type()) {
+			s |= S.sideOf(op)
+		}
+	}
+	return s, true
 }
 
 func sdConstTrue(v ssa.Value) bool {
